@@ -321,7 +321,7 @@ def check(spec, tier="quick", seed=1, replay=None):
     axioms = []
     closed = 0
 
-    with Lock():
+    with Lock("coq"):
         # 1. translator
         status, hashes, tlog = run_translator()
         for unit in spec.get("gen", []):
@@ -359,7 +359,8 @@ def check(spec, tier="quick", seed=1, replay=None):
             notes.append("coqchk rc=%d: %s" % (crc, cout[-1200:].replace("\n", " | ")))
             if crc != 0:
                 proof_broken.append("coqchk failed: " + cout[-600:])
-        # 3. model driver
+    with Lock("prop-" + name):
+        # 3. model driver (per-property lock: independent of other properties' builds)
         drc, dlog = (0, "")
         if spec.get("extract"):
             drc, dlog = build_driver(name, spec["extract"])
